@@ -103,6 +103,7 @@ const stall = 120 * time.Second // failure detection only, never synchronisation
 func runMiner(env *drive.Env) error {
 	sd.Install(sd.CfgFromEnv(env))
 	K := env.OptInt("k", 3)
+	KP := env.OptInt("kp", 8)
 	per := sd.Params().StakingTrieFrequency
 	rnd := rand.New(rand.NewSource(env.Seed))
 	var beh []sd.ABlock
@@ -285,9 +286,14 @@ func runMiner(env *drive.Env) error {
 				ev["nb"], ev["na"] = nonceBefore, nonceAfter
 				ev["nrcpt"], ev["sumgas"], ev["limit"] = len(rs), sumGas, blk.GasLimit()
 				ev["cbok"] = blk.Coinbase() == cbUsed
+				ev["pen"] = be.HasPenalty(rs)
 				env.Emit(ev)
 				// re-execution with the import executor on the independent chain (its head is the parent), then import
-				for k := 0; k <= K; k++ {
+				kk := K
+				if be.HasPenalty(rs) && KP > kk {
+					kk = KP
+				}
+				for k := 0; k <= kk; k++ {
 					r := be.Rerun(w, w.B, blk, k, rnd)
 					r["ev"], r["blk"], r["k"], r["on"], r["errc"] = "Rerun", num, k, "B", be.ErrClass(fmt.Sprint(r["err"]))
 					env.Emit(r)
